@@ -88,23 +88,27 @@ def str_src(rng, s):
     return "".join(out)
 
 
-def gen_shape(rng, depth, nodict=False):
-    """nodict: inside a list all elements must have one Erg type; dict types mention their keys, so no dicts there"""
+LEAVES = ["nat", "nat", "int", "float", "float", "str", "str", "str", "bool", "none"]
+
+
+def gen_shape(rng, depth, nodict=False, leaves=None):
+    """nodict: inside a list all elements must have one Erg type; dict types mention their keys, so no dicts there.
+    leaves: restrict the scalar kinds (biased batches of the failing-input search)"""
     if depth <= 0 or rng.random() < 0.35:
-        return (rng.choice(["nat", "nat", "int", "float", "str", "str", "str", "bool", "none"]),)
+        return (rng.choice(leaves or LEAVES),)
     k = rng.choice(["list", "tuple", "record"] + ([] if nodict else ["dict"]))
     if k == "list":
-        return ("list", gen_shape(rng, depth - 1, True), rng.choice([0, 1, 2, 3]))
+        return ("list", gen_shape(rng, depth - 1, True, leaves), rng.choice([0, 1, 2, 3]))
     if k == "tuple":
-        return ("tuple", [gen_shape(rng, depth - 1, nodict) for _ in range(rng.choice([0, 1, 2, 3]))])
+        return ("tuple", [gen_shape(rng, depth - 1, nodict, leaves) for _ in range(rng.choice([0, 1, 2, 3]))])
     if k == "record":
         names = []
         for _ in range(rng.choice([0, 1, 2, 3])):
             nm = rng.choice("abcdefgxyz") + rng.choice(["", "1", "_k", "q"])
             if nm not in names and nm not in KEYWORDS:
                 names.append(nm)
-        return ("record", [(nm, gen_shape(rng, depth - 1, nodict)) for nm in names])
-    return ("dict", gen_shape(rng, depth - 1), rng.choice([0, 1, 2, 3]))
+        return ("record", [(nm, gen_shape(rng, depth - 1, nodict, leaves)) for nm in names])
+    return ("dict", gen_shape(rng, depth - 1, False, leaves), rng.choice([0, 1, 2, 3]))
 
 
 def float_expansion(x):
@@ -116,6 +120,41 @@ def float_expansion(x):
     ip, _, fp = s.partition(".")
     fp = fp.rstrip("0")
     return neg, [int(c) for c in ip], [int(c) for c in fp]
+
+
+TINY = [5e-324, 1e-323, 2.2250738585072009e-308, 2.2250738585072014e-308, 1e-300, 1e-200, 1e-100, 1e-30, 1e-17,
+        2.220446049250313e-16, 1e-15, 1e-12, 1e-11, 9.9e-11, 1e-10, 1.1e-10, 1e-9, 1e-7, 1e-5, 0.001, 0.1, 0.3, 0.5, 0.999999999999]
+BASES = [0.0, 1.0, 2.0, 3.0, 7.0, 10.0, 255.0, 1e6, 123456.0, 2.0 ** 31, 2.0 ** 32, 1e9, 1e12, 2.0 ** 52, 2.0 ** 53, 1e15, 1e16, 1e17,
+         1e21, 1e22, 1e23, 1e100, 1e200, 1e300, 8.98846567431158e307, 1.7976931348623157e308]
+
+
+def special_float(rng):
+    """finite doubles across the whole exponent range: subnormals, tiny fractional parts on small and large integers,
+    neighbours (1 ulp) of integers and of the 1e15/1e16/1e17 and 1e21/1e22 boundaries, the largest double; both signs"""
+    import math
+    r = rng.random()
+    if r < 0.2:
+        x = rng.choice(TINY)
+    elif r < 0.5:
+        x = rng.choice(BASES) + rng.choice(TINY)                   # n + tiny (absorbed when n is large)
+    elif r < 0.7:
+        b = rng.choice(BASES + TINY)
+        x = math.nextafter(b, math.inf if rng.random() < 0.5 else -math.inf)   # n +- 1 ulp
+    elif r < 0.8:
+        x = rng.choice(BASES)
+    elif r < 0.9:
+        x = math.ldexp(rng.random() + 0.5, rng.randint(-1074, 1023))            # any binade
+    else:
+        x = rng.choice(BASES[:12]) + rng.random() * rng.choice(TINY)           # n + random tiny fraction
+    if x == math.inf:
+        x = 1.7976931348623157e308
+    return -x if rng.random() < 0.3 else x
+
+
+def float_src(x):
+    """decimal Erg literal (no exponent syntax) of the double x: its shortest round-trip digits written out"""
+    s = format(decimal.Decimal(repr(x)), "f")
+    return s if "." in s else s + ".0"
 
 
 def gen_value(rng, shape):
@@ -144,9 +183,17 @@ def gen_value(rng, shape):
         n = -rng.choice([1, 2, 9, 10, 128, 1000, 2 ** 31, rng.randint(1, 2 ** 31)])
         return ("int", n, str(n), str(n))
     if k == "float":
+        if rng.random() < 0.5:
+            x = special_float(rng)
+            src = float_src(x)
+            if rng.random() < 0.1 and "." in src and len(src.split(".")[0].lstrip("-")) > 1:
+                i = 2 if src.startswith("-") else 1
+                src = src[:i] + "_" + src[i:]
+            return ("float", x, src, src)
         ip = rng.choice(["0", "1", "3", "10", "255", str(rng.randint(0, 10 ** 6)), str(rng.randint(0, 10 ** 18)),
                          "123456789012345678901234567890"])
-        fp = rng.choice(["0", "5", "25", "125", "1", "14159", "000000001", str(rng.randint(0, 10 ** 9)), "10"])
+        fp = rng.choice(["0", "5", "25", "125", "1", "14159", "000000001", str(rng.randint(0, 10 ** 9)), "10",
+                         "0" * rng.randint(9, 30) + str(rng.randint(1, 999))])
         src = ip + "." + fp
         if rng.random() < 0.15 and len(ip) > 1:
             src = ip[:1] + "_" + ip[1:] + "." + fp
@@ -265,7 +312,7 @@ def kinds(v, acc):
     return acc
 
 
-def gen_module(rng, nb):
+def gen_module(rng, nb, leaves=None):
     """list of bindings: dict(public, name, src, mexpr, py, order_free, kinds)"""
     out = []
     for i in range(nb):
@@ -285,7 +332,7 @@ def gen_module(rng, nb):
             out.append(dict(public=public, name=name, src="%d + %d" % (a, b), mexpr=[6, [[0, a + b]]],
                             py=a + b, order_free=False, value=("int", a + b, "", ""), kinds={"binop"}))
             continue
-        v = gen_value(rng, gen_shape(rng, rng.choice([0, 1, 2, 3, 3])))
+        v = gen_value(rng, gen_shape(rng, rng.choice([0, 1, 2, 3, 3]), False, leaves))
         out.append(dict(public=public, name=name, src=v[2], mexpr=to_mexpr(v), py=to_py(v), order_free=False, value=v,
                         kinds=kinds(v, set())))
     return out
@@ -578,6 +625,7 @@ def run(ctx):
     fails = []
     known_hit = False
     outputs = []
+    corr_kinds = {}
     for bs, (corr, jf, im, known) in zip(mods, results):
         src = module_src(bs)
         for b in bs:
@@ -597,6 +645,26 @@ def run(ctx):
         elif corr:
             n_corr += 1
             first_corr = first_corr or {"module": src, "detail": corr}
+            for b in bs:
+                for k in b["kinds"]:
+                    corr_kinds[k] = corr_kinds.get(k, 0) + 1
+
+    # ---- the correspondence broke but every output still satisfied the judge: search around the disagreeing value kinds
+    if n_corr and not fails:
+        scal = [k for k in ("float", "int", "str", "bool", "none") if k in corr_kinds]
+        # scalar kinds over-represented in the disagreeing modules first, then all of them
+        batches = [[k] for k in sorted(scal, key=lambda k: -corr_kinds[k])[:3]] + [scal or None]
+        for leaves in batches:
+            lv = None if leaves is None else [("nat" if k == "int" else k) for k in leaves] + (["int"] if "int" in leaves else [])
+            extra = [gen_module(ctx.rng, ctx.rng.choice([4, 8, 14]), lv) for _ in range(ctx.scale(60, 600))]
+            ctx.log("failing-input search: %d modules biased to %s" % (len(extra), leaves))
+            for bs, (corr, jf, im, known) in zip(extra, evaluate(ctx, erg, model, extra)):
+                ctx.count("search batch module")
+                ctx.case(module_src(bs), nontrivial=im["rc"] == 0 and im["out"] is not None, sample=None)
+                if jf and not known:
+                    fails.append((bs, jf, im))
+            if fails:
+                break
 
     # ---- the specification itself against the oracle
     texts = list(outputs[:ctx.scale(150, 1500)])
